@@ -1,6 +1,6 @@
 """Mapping property -> rules, with the explanation that goes into the evidence."""
 from .rules import (tree_rules, order_rules, opt_rules, gram_rules, driver_rules, writer_rules, edit_rules,
-                    head_rules, reader_rules)
+                    head_rules, reader_rules, extra_rules)
 
 RULES = {
     'R-LINK': tree_rules.r_link,
@@ -44,6 +44,15 @@ RULES = {
     'R-FLAGS': head_rules.r_flags,
     'R-READER-STATE': reader_rules.r_reader_state,
     'R-AUTOMATON': reader_rules.r_automaton,
+    'R-MEMO': extra_rules.r_memo,
+    'R-LOOPSTRIP': extra_rules.r_loopstrip,
+    'R-OPENMODE': extra_rules.r_openmode,
+    'R-LITERALS': extra_rules.r_literals,
+    'R-RECURSE': extra_rules.r_recurse,
+    'R-REPORT': extra_rules.r_report,
+    'R-DIRMODE': extra_rules.r_dirmode,
+    'R-SYMTARGET': extra_rules.r_symtarget,
+    'R-ROOTSCAN': extra_rules.r_rootscan,
 }
 
 
@@ -79,7 +88,7 @@ EDITORS = ('transform.punctuation_delete', 'transform.ptb_delete_traces', 'trans
 
 PROPS = {
     'C01': {
-        'rules': ['R-AUTOMATON', 'R-READER-STATE', 'R-LINK', 'R-SIBLING', 'R-OPTKEY', 'R-ENC'],
+        'rules': ['R-AUTOMATON', 'R-READER-STATE', 'R-LINK', 'R-SIBLING', 'R-OPTKEY', 'R-ENC', 'R-ROOTSCAN'],
         'filter': {'R-LINK': site('treeinput.', 'trees.Tree'),
                    'R-OPTKEY': site('treeinput.', 'trees.parse_label'),
                    'R-ENC': either(rule('R-ENC/GUNZIP'), site('treeinput.'))},
@@ -106,8 +115,9 @@ PROPS = {
                        'independent decoder recovers the tree, tab-stop widths, terminals output text.',
     },
     'C03': {
-        'rules': ['R-FRAMEFILE', 'R-DISPATCH', 'R-ENC', 'R-NONE', 'R-VOCAB', 'R-AUTOMATON', 'R-OPTKEY'],
-        'filter': {'R-AUTOMATON': rule('R-AUTOMATON/A4', 'R-AUTOMATON/A3', 'R-AUTOMATON/FIELDS'),
+        'rules': ['R-FRAMEFILE', 'R-DISPATCH', 'R-ENC', 'R-NONE', 'R-VOCAB', 'R-AUTOMATON', 'R-OPTKEY', 'R-READER-STATE', 'R-DIRMODE', 'R-OPENMODE'],
+        'filter': {'R-OPENMODE': site('transform.'),
+                   'R-AUTOMATON': rule('R-AUTOMATON/A4', 'R-AUTOMATON/A3', 'R-AUTOMATON/FIELDS'),
                    'R-OPTKEY': rule('R-OPTKEY/K3')},
         'explanation': 'Decides, for `treetools transform`: every registry member exists with the arity its dispatch '
                        'site uses (4 readers x 5 writers total), both output branches frame every file with '
@@ -117,7 +127,7 @@ PROPS = {
                        'losslessness of a round trip.',
     },
     'C04': {
-        'rules': ['R-LINK', 'R-KEEP', 'R-ROOT', 'R-FRAME', 'R-STALE', 'R-ORDERED'],
+        'rules': ['R-LINK', 'R-KEEP', 'R-ROOT', 'R-FRAME', 'R-STALE', 'R-ORDERED', 'R-FLAGS'],
         'filter': {'R-LINK': site('transform.', 'trees.'),
                    'R-ORDERED': both(rule('R-ORDERED/RAW'), site('transform.', 'trees.'))},
         'explanation': 'Decides, for every structural transformation: each attach is paired with the parent-pointer '
@@ -143,8 +153,10 @@ PROPS = {
                        'decide: continuity of the result, maximality of the head run.',
     },
     'C06': {
-        'rules': ['R-ACCUM', 'R-ARGPOS', 'R-DISCONT', 'R-ORDERED'],
-        'filter': {'R-ACCUM': site('grammar.extract'),
+        'rules': ['R-ACCUM', 'R-ARGPOS', 'R-DISCONT', 'R-ORDERED', 'R-MEMO', 'R-STATE'],
+        'filter': {'R-MEMO': site('grammar.', 'treeanalysis.', 'trees'),
+                   'R-STATE': both(rule('R-STATE/G1'), site('grammar', 'treeanalysis', 'trees')),
+                   'R-ACCUM': site('grammar.extract'),
                    'R-ARGPOS': site('grammar.extract'),
                    'R-ORDERED': either(rule('R-ORDERED/DEF'), site('grammar.'))},
         'explanation': 'Decides, for grammar extraction: one `+= 1` per constituent and one lexicon update per token, '
@@ -154,8 +166,9 @@ PROPS = {
                        'every rule; ordered accessors used. Does NOT decide: that the linearization reproduces the blocks.',
     },
     'C07': {
-        'rules': ['R-ARITY', 'R-ARGPOS', 'R-INVERSEMAP'],
-        'filter': {'R-ARGPOS': site('grammar.linsub')},
+        'rules': ['R-ARITY', 'R-ARGPOS', 'R-INVERSEMAP', 'R-MEMO'],
+        'filter': {'R-MEMO': site('grammar', 'trees'),
+                   'R-ARGPOS': site('grammar.linsub')},
         'explanation': 'Decides only: binarized rule keys are triples, rank <= 2 rules are stored verbatim under the '
                        'rank test, every label handed out is new (counter incremented before each return), one '
                        'generator per binarize call; linsub numbers argument positions by emission; reordering permutes '
@@ -163,7 +176,7 @@ PROPS = {
                        'linsub algebra, chain composition, fan-out agreement.',
     },
     'C08': {
-        'rules': ['R-ACCUM'],
+        'rules': ['R-ACCUM', 'R-IDCOUNTER'],
         'explanation': 'Decides the clause "never only the last one seen": every store into a count slot accumulates '
                        '(+=, right-hand side reads the slot, or a local derived from it on every path), entries are '
                        'created only under `key not in table`, the count handed to the binarizer is the source rule\'s '
@@ -171,8 +184,9 @@ PROPS = {
                        'Does NOT decide: the numeric balance equation.',
     },
     'C09': {
-        'rules': ['R-MUSTUSE', 'R-ENC', 'R-GUARD', 'R-ACCUM', 'R-IDCOUNTER', 'R-SORTEDPOS', 'R-OPTKEY', 'R-STATE'],
-        'filter': {'R-GUARD': rule('R-GUARD/LOPAR'),
+        'rules': ['R-MUSTUSE', 'R-ENC', 'R-GUARD', 'R-ACCUM', 'R-IDCOUNTER', 'R-SORTEDPOS', 'R-OPTKEY', 'R-STATE', 'R-LOOPSTRIP', 'R-OPENMODE'],
+        'filter': {'R-OPENMODE': site('grammaroutput.', 'grammar.'),
+                   'R-GUARD': rule('R-GUARD/LOPAR'),
                    'R-ACCUM': either(rule('R-ACCUM/PRINT'), site('grammarinput.', 'grammaroutput.')),
                    'R-ENC': site('grammarinput.', 'grammaroutput.', 'grammar.run'),
                    'R-OPTKEY': site('grammarinput.', 'grammaroutput.'),
@@ -184,8 +198,9 @@ PROPS = {
                        'tested literally and works on a copy. Does NOT decide: textual round trip of RCG/PMCFG.',
     },
     'C10': {
-        'rules': ['R-GUARD', 'R-ORDERED', 'R-STATE', 'R-FRAME'],
-        'filter': {'R-GUARD': rule('R-GUARD/GAP', 'R-GUARD/TOPDOWN', 'R-GUARD/PLAIN'),
+        'rules': ['R-GUARD', 'R-ORDERED', 'R-STATE', 'R-FRAME', 'R-OPENMODE'],
+        'filter': {'R-OPENMODE': site('transitions.', 'transitionoutput.'),
+                   'R-GUARD': rule('R-GUARD/GAP', 'R-GUARD/TOPDOWN', 'R-GUARD/PLAIN'),
                    'R-ORDERED': either(rule('R-ORDERED/DEF'), site('transitions.')),
                    'R-STATE': both(rule('R-STATE/G1'), site('transitions', 'transitionoutput', 'trees')),
                    'R-FRAME': both(rule('R-FRAME/PURE'), site('transitions.'))},
@@ -221,16 +236,19 @@ PROPS = {
                        'the set-based reference.',
     },
     'C13': {
-        'rules': ['R-FRAME', 'R-LINK', 'R-KEEP', 'R-PUNCTSEL', 'R-STALE'],
-        'filter': {'R-FRAME': site(*PUNCT), 'R-LINK': site(*PUNCT), 'R-KEEP': site(*PUNCT), 'R-STALE': site(*PUNCT)},
+        'rules': ['R-FRAME', 'R-LINK', 'R-KEEP', 'R-PUNCTSEL', 'R-STALE', 'R-SYMTARGET', 'R-LITERALS'],
+        'filter': {'R-LITERALS': site('trees.'),
+                   'R-FRAME': site(*PUNCT), 'R-LINK': site(*PUNCT), 'R-KEEP': site(*PUNCT), 'R-STALE': site(*PUNCT)},
         'explanation': 'Decides: only tokens filtered by trees.PUNCT / PAIRPUNCT are moved; the moved set is '
                        'restricted by the documented conditions only; links are paired; no constituent is emptied '
                        '(guard at move time); targets are read from .parent in the moving iteration. Does NOT decide: '
                        'that the new parent is the documented one.',
     },
     'C14': {
-        'rules': ['R-ROOT', 'R-LABELEDIT', 'R-GUARD', 'R-LINK', 'R-FLAGS'],
-        'filter': {'R-ROOT': site('transform.binarize', 'transform.collapse_unary_chains', 'transform.uncollapse_unary_chains'),
+        'rules': ['R-ROOT', 'R-LABELEDIT', 'R-GUARD', 'R-LINK', 'R-FLAGS', 'R-RECURSE', 'R-ORDERED'],
+        'filter': {'R-RECURSE': site('transform.'),
+                   'R-ORDERED': both(rule('R-ORDERED/RAW'), site('transform.')),
+                   'R-ROOT': site('transform.binarize', 'transform.collapse_unary_chains', 'transform.uncollapse_unary_chains'),
                    'R-LABELEDIT': site('transform._binarize_tree'),
                    'R-GUARD': rule('R-GUARD/BINARIZE'),
                    'R-LINK': site('transform._binarize_tree', 'transform._collapse_unary_chains',
@@ -242,8 +260,10 @@ PROPS = {
                        'parent pointers. Does NOT decide: reversibility.',
     },
     'C15': {
-        'rules': ['R-HEADS', 'R-STATE', 'R-ORDERED'],
-        'filter': {'R-STATE': both(rule('R-STATE/G1'), site('transformconst', 'transform.negra_mark_heads',
+        'rules': ['R-HEADS', 'R-STATE', 'R-ORDERED', 'R-LITERALS', 'R-MEMO'],
+        'filter': {'R-LITERALS': site('transformconst.'),
+                   'R-MEMO': site('transformconst', 'transform', 'trees'),
+                   'R-STATE': both(rule('R-STATE/G1'), site('transformconst', 'transform.negra_mark_heads',
                                                             'transform.mark_heads_by_rules', 'trees')),
                    'R-ORDERED': both(rule('R-ORDERED/RAW'), site('transform.negra_mark_heads',
                                                                  'transform.mark_heads_by_rules', 'transformconst.'))},
@@ -254,8 +274,10 @@ PROPS = {
                        'and guards; presets and rejections; no state between calls. What remains is table content.',
     },
     'C16': {
-        'rules': ['R-DISCONT', 'R-ACCUM', 'R-FRAME', 'R-DISCOORDER', 'R-GUARD', 'R-ORDERED'],
-        'filter': {'R-ACCUM': site('treeanalysis.'),
+        'rules': ['R-DISCONT', 'R-ACCUM', 'R-FRAME', 'R-DISCOORDER', 'R-GUARD', 'R-ORDERED', 'R-REPORT', 'R-STATE', 'R-MEMO'],
+        'filter': {'R-STATE': both(rule('R-STATE/G1'), site('treeanalysis', 'trees')),
+                   'R-MEMO': site('treeanalysis', 'trees'),
+                   'R-ACCUM': site('treeanalysis.'),
                    'R-FRAME': both(rule('R-FRAME/PURE'), site('treeanalysis.', 'trees.')),
                    'R-GUARD': rule('R-GUARD/BRACKETS', 'R-GUARD/LOPAR'),
                    'R-ORDERED': either(rule('R-ORDERED/DEF'), site('treeanalysis.'))},
@@ -266,7 +288,8 @@ PROPS = {
                        'node as such only for tokens. Does NOT decide: numeric equality with the set-based definition.',
     },
     'C17': {
-        'rules': ['R-SPLITARITH', 'R-FRAMEFILE'],
+        'rules': ['R-SPLITARITH', 'R-FRAMEFILE', 'R-ENC', 'R-OPENMODE'],
+        'filter': {'R-ENC': site('transform.run'), 'R-OPENMODE': site('transform.')},
         'explanation': 'Decides: every part size is an exact non-negative integer in an abstract domain '
                        '{NonNegInt, Int, InexactInt, Float, Str} (floating-point percentages and unvalidated signs are '
                        'rejected), the remainder goes to rest or to parts.index(max(parts)), bad specifications raise '
@@ -275,8 +298,9 @@ PROPS = {
                        'Does NOT decide: the sum arithmetic itself.',
     },
     'C18': {
-        'rules': ['R-STATE', 'R-READER-STATE', 'R-ARITY', 'R-FRAME'],
-        'filter': {'R-ARITY': rule('R-ARITY/UNIQUE'), 'R-FRAME': rule('R-FRAME/PURE')},
+        'rules': ['R-STATE', 'R-READER-STATE', 'R-ARITY', 'R-FRAME', 'R-ACCUM', 'R-MEMO'],
+        'filter': {'R-ACCUM': rule('R-ACCUM/TASK'),
+                   'R-ARITY': rule('R-ARITY/UNIQUE'), 'R-FRAME': rule('R-FRAME/PURE')},
         'explanation': 'Decides: the inventory of state outliving a call is exactly the two terminal-file caches (no '
                        'global, no mutable default, no module/class-level write); node ids are read only in Tree; '
                        'caches are written only while loading and dropped completely; writers leave node content and '
@@ -295,8 +319,10 @@ PROPS = {
                        'Does NOT decide: the least common ancestor, the level arithmetic.',
     },
     'C20': {
-        'rules': ['DECOR', 'R-OPTKEY', 'R-LABELFIELDS', 'R-LABELSPLIT'],
-        'filter': {'R-OPTKEY': site('trees.')},
+        'rules': ['DECOR', 'R-OPTKEY', 'R-LABELFIELDS', 'R-LABELSPLIT', 'R-STATE', 'R-MEMO'],
+        'filter': {'R-STATE': both(rule('R-STATE/G1'), site('trees')),
+                   'R-MEMO': site('trees'),
+                   'R-OPTKEY': site('trees.')},
         'explanation': 'Decides: every rebinding of the label in parse_label is a prefix slice whose remainder was '
                        'recorded (one separator character dropped), indices are split at the last separator and only '
                        'if numeric, the trace test; format_label reads each component parse_label stores, glues the '
